@@ -1049,6 +1049,13 @@ bool dispatch_api(State& st, const std::string& op, const json& a, json& ret)
         ret = true;
         return true;
     }
+    if (op == "add_track_via_id")
+    {
+        // the int64_t overload, with the id of a known track
+        st.C(a.at("c").get<std::string>()).add_track(st.T(a.at("t").get<std::string>()).id());
+        ret = true;
+        return true;
+    }
     if (op == "add_track_id")
     {
         st.C(a.at("c").get<std::string>()).add_track(a.at("id").get<int64_t>());
